@@ -338,9 +338,12 @@ def value_type(val, target_dom):
         return ins, target_dom
     if k == "matvec":
         _, y, yshape, aid, binputs = val
+        xshape, yshape = tuple(target_dom[1]), tuple(yshape)
+        if target_dom[0] != "r" or len(yshape) != max(len(xshape), 1) or yshape[1:] != xshape[1:]:
+            raise IllTyped("matvec: x of shape %s cannot be A @ y with y of shape %s" % (xshape, yshape))
         for n, _, d in binputs:
             _merge(ins, n, ("b", d))
-        _merge(ins, y, ("r", tuple(yshape)))
+        _merge(ins, y, ("r", yshape))
         return ins, target_dom
     if k == "getitem":
         _, y, yshape, index = val
